@@ -1,5 +1,5 @@
 /* C01 driver: stdin lines "<seed> <entry LP|LM|LF|LC> <path>", or "<seed> TY <path>" (prints the detected format only), or
- * "<seed> SW:<off>=<val>,<off>=<val>... <path>" (boundary sweep: the file is read into memory, the listed bytes are replaced, then
+ * "<seed> SW:<off>=<val>,<off>+<delta>... <path>" (boundary sweep: the file is read into memory, the listed bytes are replaced, then
  * test + load from memory and a short fixed history that visits every order with set_position / next / prev; no dump).  For each: the matching test entry point, then the load; on
  * success the module dump (harness/vdump.h) and a seeded history of playback and position-control calls under a seeded
  * output configuration, then release.  Built once with ASan+UBSan and once with MSan: any report aborts the process
@@ -7,6 +7,21 @@
  */
 #include "vdump.h"
 #include "rng.h"
+#include "hio.h"
+#include "tempfile.h"
+#include "depackers/depacker.h"
+
+/* the bytes the loaders see when the path is loaded: the file itself, or what the built-in depackers make of it */
+static unsigned char *read_unpacked(const char *path, long *sz)
+{
+	HIO_HANDLE *h = hio_open(path, "rb"); char *temp = NULL; unsigned char *b = NULL; long n;
+	if (!h) return NULL;
+	if (libxmp_decrunch(h, path, &temp) >= 0 && (n = hio_size(h)) > 0 && n < (64 << 20)) {
+		hio_seek(h, 0, SEEK_SET); b = malloc(n); *sz = (long)hio_read(b, 1, n, h);
+	}
+	hio_close(h); unlink_temp_file(temp);
+	return b;
+}
 
 static unsigned long cb_read(void *d, unsigned long s, unsigned long n, void *p) { return fread(d, s, n, (FILE *)p); }
 static int cb_seek(void *p, long o, int w) { return fseek((FILE *)p, o, w); }
@@ -25,12 +40,13 @@ int main(void)
 		if (sscanf(line, "%u %255s %4095[^\n]", &seed, e, path) != 3) continue;
 		rs = seed;
 		memset(&ti, 0, sizeof ti);
-		if (!strcmp(e, "TY")) { int r = xmp_test_module(path, &ti); printf("TYPE %d %s\n", r, r == 0 ? ti.type : "-"); puts("DONE"); fflush(stdout); continue; }
+		if (!strcmp(e, "TY")) { int r = -1; buf = read_unpacked(path, &sz); if (buf) r = xmp_test_module_from_memory(buf, sz, &ti); printf("TYPE %d %ld %s\n", r, buf ? sz : -1L, r == 0 ? ti.type : "-"); free(buf); puts("DONE"); fflush(stdout); continue; }
 		c = xmp_create_context();
 		if (!strncmp(e, "SW:", 3)) {
 			char *q = e + 3; int loaded = 0;
-			buf = vf_read_file(path, &sz);
-			while (buf && *q) { long off = strtol(q, &q, 10); int val = 0; if (*q == '=') val = (int)strtol(q + 1, &q, 10); if (off >= 0 && off < sz) buf[off] = (unsigned char)val; if (*q == ',') q++; else break; }
+			buf = read_unpacked(path, &sz);
+			while (buf && *q) { long off = strtol(q, &q, 10); int val = 0, rel = 0; if (*q == '=') val = (int)strtol(q + 1, &q, 10); else if (*q == '+' || *q == '-') { rel = 1; val = (int)strtol(q, &q, 10); }
+				if (off >= 0 && off < sz) buf[off] = (unsigned char)(rel ? buf[off] + val : val); if (*q == ',') q++; else break; }
 			tret = buf ? xmp_test_module_from_memory(buf, sz, &ti) : -1;
 			ret = buf ? xmp_load_module_from_memory(c, buf, sz) : -1;
 			printf("RET %d %d %d\n", tret, ret, (int)strlen(ti.name) + (int)strlen(ti.type));
